@@ -144,7 +144,8 @@ theorem bookmark_exact (s : Stanza) : (rowOf .bookmark).good s = !(rowOf .bookma
   simp only [rowOf, Row.good, Row.run, Row.defect, defectCell, bookmarkBeh, Beh.goodFor]
   generalize headIs s .query .priv = a
   generalize headFlag s = b
-  cases a <;> cases b <;> finish_cases
+  generalize s.id = i
+  cases a <;> cases b <;> cases i <;> finish_cases
 
 theorem mam_exact (s : Stanza) : (rowOf .mam).good s = !(rowOf .mam).defect s := by
   simp only [rowOf, Row.good, Row.run, Row.defect, defectCell, mamBeh, Beh.goodFor]
@@ -217,5 +218,62 @@ theorem good_iff_not_defect (m : Mgr) (s : Stanza) : (rowOf m).good s = !(rowOf 
   case transfer => exact transfer_exact s
   case uploadRequest => exact uploadRequest_exact s
   all_goals exact pass_exact _ s rfl (fun _ => rfl)
+
+/-! ### The handlers with /verif/fixes/C08-*.diff applied are good everywhere -/
+
+theorem fixed_good (m : Mgr) (s : Stanza) : (rowOfFixed m).good s = true := by
+  have hbase : ∀ m', (rowOf m').defect s = false → (rowOf m').good s = true := by
+    intro m' h; rw [good_iff_not_defect, h]; rfl
+  have hnd : ∀ m', (∀ s', defectCell (rowOf m').mgr s' = false) → (rowOf m').good s = true := by
+    intro m' h; apply hbase; simp only [Row.defect, h]; cases s.enc <;> cases (rowOf m').newStyle <;> rfl
+  cases m
+  case vcard =>
+    simp only [rowOfFixed, Row.good, Row.run, vcardFixedBeh, Beh.goodFor]
+    generalize headIs s .vCard .vcard = a
+    cases a <;> finish_cases
+  case roster =>
+    simp only [rowOfFixed, Row.good, Row.run, rosterFixedBeh, Beh.goodFor]
+    generalize headIs s .query .roster = a
+    cases a <;> finish_cases
+  case archive =>
+    simp only [rowOfFixed, Row.good, Row.run, archiveFixedBeh, archiveBeh, Beh.goodFor]
+    generalize namedNsFlag s .chat .archive = a
+    generalize headIs s .list .archive = b
+    generalize headIs s .pref .archive = c
+    cases a <;> cases b <;> cases c <;> finish_cases
+  case bookmark =>
+    simp only [rowOfFixed, Row.good, Row.run, bookmarkFixedBeh, bookmarkBeh, Beh.goodFor]
+    generalize headIs s .query .priv = a
+    generalize headFlag s = b
+    generalize s.id = i
+    cases a <;> cases b <;> cases i <;> finish_cases
+  case mam =>
+    simp only [rowOfFixed, Row.good, Row.run, mamFixedBeh, mamBeh, Beh.goodFor]
+    generalize namedHasNs s .fin .mam = a
+    cases a <;> finish_cases
+  case uploadRequest =>
+    simp only [rowOfFixed, Row.good, Row.run, uploadRequestFixedBeh, uploadRequestBeh, Beh.goodFor]
+    generalize headIs s .slot .upload = a
+    generalize headIs s .request .upload = b
+    cases a <;> cases b <;> finish_cases
+  case registration =>
+    simp only [rowOfFixed, Row.good, Row.run, registrationFixedBeh, registrationBeh, Beh.goodFor]
+    generalize headIs s .query .register = a
+    generalize s.id = i
+    cases a <;> cases i <;> finish_cases
+  case rpc =>
+    simp only [rowOfFixed, Row.good, Row.run, rpcFixedBeh, Beh.goodFor]
+    generalize namedHasNs s .query .rpc = a
+    generalize (named s .error).isSome = b
+    cases a <;> cases b <;> finish_cases
+  case transfer =>
+    simp only [rowOfFixed, Row.good, Row.run, transferFixedBeh, transferBeh, Beh.goodFor]
+    generalize headIs s .close .ibb = a
+    generalize headIs s .data .ibb = b
+    generalize headIs s .openT .ibb = c
+    generalize headIs s .query .bytestreams = d
+    generalize namedHasNs s .si .si = g
+    cases a <;> cases b <;> cases c <;> cases d <;> cases g <;> finish_cases
+  all_goals exact hnd _ (fun _ => rfl)
 
 end Qx.C08
